@@ -268,7 +268,7 @@ def gen_model(rng, stream="main", size=None):
             w = b.ref()
             if w is None:
                 continue
-            p = r.choice(b.pnames)
+            p = r.choice([q for q in b.pnames if b.sol[q] != 0])     # a zero factor would make the system singular
             s = r.choice([1, -1])
             val = s * b.sol[w]
             eq = r.choice(["%s*(%s %s %s) = 0" % (p, v, "-" if s > 0 else "+", w),
@@ -1037,6 +1037,18 @@ def check_case(ctx, prop, case, drv=None, tie=None):
     ctx.case(case, nontrivial=nontrivial(r), key=[case["text"], case["options"]])
     count_case(ctx, case, r)
     viol = oracle_c14(case, r) if prop == "C14" else oracle_c15(case, r)
+    if viol and case.get("affine") and case["stream"] != "contradiction":
+        # the generator's own claim first: the *unsimplified* model must have the constructed solution as its only one
+        m0 = fresh_model(case["text"], case["options"])
+        sol = solution(case)
+        unk = [v.symbol.name() for v in list(m0.der_states) + list(m0.alg_states)]
+        try:
+            base, cols = jacobian_columns(m0.dae_residual_function, m0, sol, unk, "dae")
+            rows = [[cols[j][0][i] for j in range(len(unk))] for i in range(len(base))]
+            if any(x != 0 for x in base) or (unk and rank(rows) < len(unk)):
+                raise HarnessError("generator produced a model whose constructed solution is not its unique solution:\n" + case["text"])
+        except EvalError:
+            pass
     if viol:
         sy = symptoms(case, r)
         suffix = (" [" + "; ".join(sy) + "]") if sy else ""
